@@ -2930,7 +2930,11 @@ impl platform::Symbol for SymtabEntry {
     }
 
     fn is_hidden(&self) -> bool {
-        self.st_visibility() == object::elf::STV_HIDDEN
+        // The gABI says that internal visibility is processed like hidden by the linker.
+        matches!(
+            self.st_visibility(),
+            object::elf::STV_HIDDEN | object::elf::STV_INTERNAL
+        )
     }
 
     fn is_gnu_unique(&self) -> bool {
@@ -2951,7 +2955,7 @@ impl platform::Symbol for SymtabEntry {
 pub(crate) fn convert_elf_visibility(st_visibility: u8) -> Visibility {
     match st_visibility {
         object::elf::STV_PROTECTED => Visibility::Protected,
-        object::elf::STV_HIDDEN => Visibility::Hidden,
+        object::elf::STV_HIDDEN | object::elf::STV_INTERNAL => Visibility::Hidden,
         _ => Visibility::Default,
     }
 }
